@@ -277,6 +277,7 @@ struct Notes {
     panics: Vec<String>,
     dropped: Vec<String>,
     renames: Vec<String>,
+    variants: Vec<String>,
     refs: Vec<String>,
 }
 
@@ -370,6 +371,10 @@ struct Tr<'a> {
     has_panic: bool,
     ret: Ty,
     closures: Vec<(String, Ty)>,
+    /// generic parameters `E: Into<T>` of the function (they stand for `T`; `.into()` is the identity)
+    intos: Vec<String>,
+    /// the parameters declared with such a type
+    into_params: Vec<String>,
     deceq: BTreeSet<String>,
     inh: BTreeSet<String>,
     match_depth: usize,
@@ -539,6 +544,7 @@ impl<'a> Tr<'a> {
                 Ok(Ty::Tuple(ts))
             }
             Type::Reference(r) if r.mutability.is_none() => self.ty(&r.elem),
+            Type::Infer(_) => Ok(Ty::Unknown),
             Type::ImplTrait(it) if it.bounds.len() == 1 => match &it.bounds[0] {
                 syn::TypeParamBound::Trait(tb) => match self.fn_trait(&tb.path, t.span())? {
                     Some(f) => Ok(f),
@@ -685,16 +691,18 @@ impl<'a> Tr<'a> {
     }
 
     /// the variants of a fieldless enum defined in the same file
-    fn enum_variants(&self, rust: &str) -> Option<Result<Vec<String>, String>> {
+    /// the variants of an enum defined in the same file, each with the types of its (unnamed) fields
+    fn enum_variants(&self, rust: &str) -> Option<Result<Vec<(String, Vec<Type>)>, String>> {
         for it in &self.file.items {
             if let Item::Enum(e) = it {
                 if e.ident == rust {
                     let mut vs = vec![];
                     for v in &e.variants {
-                        if !matches!(v.fields, syn::Fields::Unit) {
-                            return Some(Err(format!("variant `{}::{}` has fields", rust, v.ident)));
+                        match &v.fields {
+                            syn::Fields::Unit => vs.push((v.ident.to_string(), vec![])),
+                            syn::Fields::Unnamed(u) => vs.push((v.ident.to_string(), u.unnamed.iter().map(|f| f.ty.clone()).collect())),
+                            syn::Fields::Named(_) => return Some(Err(format!("variant `{}::{}` has named fields", rust, v.ident))),
                         }
-                        vs.push(v.ident.to_string());
                     }
                     return Some(Ok(vs));
                 }
@@ -703,14 +711,25 @@ impl<'a> Tr<'a> {
         None
     }
 
-    fn lean_variant(&self, en: &str, v: &str) -> String {
+    /// the Lean term / pattern of `En::V(args)`: the template given by --variant (`$1`, `$2`, … are the arguments), else
+    /// `.v args` (first letter lower-cased)
+    fn lean_variant(&self, en: &str, v: &str, args: &[String]) -> String {
         let key = format!("{en}::{v}");
         if let Some((_, l)) = self.opts.variant_map.iter().find(|(k, _)| *k == key) {
-            return l.clone();
+            let mut t = l.clone();
+            for (i, a) in args.iter().enumerate().rev() {
+                t = t.replace(&format!("${}", i + 1), a);
+            }
+            return t;
         }
         let mut c = v.chars();
         let first = c.next().map(|f| f.to_lowercase().collect::<String>()).unwrap_or_default();
-        format!(".{}", lean_ident(&format!("{first}{}", c.as_str())))
+        let mut t = format!(".{}", lean_ident(&format!("{first}{}", c.as_str())));
+        for a in args {
+            t.push(' ');
+            t.push_str(a);
+        }
+        t
     }
 
     // ---------------------------------------------------------------- results
@@ -869,7 +888,7 @@ fn flatten(out: Vec<Chunk>) -> Vec<String> {
 fn assignable(slot: &Ty, v: &Ty) -> bool {
     match (slot, v) {
         (_, Ty::Unknown) | (Ty::Unknown, _) => true,
-        (Ty::Int(..), Ty::Int(0, _)) => true,
+        (Ty::Int(..), Ty::Int(0, _)) | (Ty::Int(0, _), Ty::Int(..)) => true,
         (Ty::Int(a, _), Ty::Int(b, _)) => a == b,
         (Ty::Opt(_), Ty::Opt(b)) if **b == Ty::Unit => true, // `None`
         (Ty::Opt(a), Ty::Opt(b)) => assignable(a, b),
